@@ -237,9 +237,9 @@ Proof.
   assert (E3 : conv (sD (sadd c1 c2)) (conv a1 a2) n = conv (sadd (sD c1) (sD c2)) (conv a1 a2) n).
   { apply conv_ext; [|reflexivity]. intros j _. unfold sD, sadd. ring. }
   rewrite E3, conv_add_l. f_equal.
-  - symmetry. apply conv_assoc.
+  - apply conv_assoc.
   - (* a1 * (Dc2 * a2) = Dc2 * (a1 * a2) *)
-    rewrite <- conv_assoc. rewrite <- (conv_assoc (sD c2) a1 a2).
+    rewrite <- (conv_assoc a1 (sD c2) a2 n). rewrite <- (conv_assoc (sD c2) a1 a2 n).
     apply conv_ext; [|reflexivity]. intros j _. apply conv_comm.
 Qed.
 
@@ -270,7 +270,7 @@ Lemma geo_telescope N w n : conv (ssub sone w) (geo N w) n = sone n - cpow w N n
 Proof.
   rewrite conv_sub_l, conv_one_l. revert n. induction N as [|N IH]; intros n.
   - unfold geo. cbn [seq]. rewrite bigsum_nil. cbn [cpow].
-    rewrite conv_low by (intros; reflexivity). ring.
+    rewrite conv_comm. rewrite conv_low by (intros; reflexivity). ring.
   - assert (E1 : geo (S N) w n = geo N w n + cpow w N n).
     { unfold geo. rewrite seq_S, bigsum_app, bigsum_cons, bigsum_nil. cbn [Nat.add]. ring. }
     assert (E2 : conv w (geo (S N) w) n = conv w (geo N w) n + cpow w (S N) n).
@@ -340,7 +340,7 @@ Proof.
                           = bigsum (pyrange 1 (S n + 1)) (fun k => bq (S n - 1) (k - 1) * kap k * m (S n - k)%nat) / factq n).
   { intros n. split.
     - unfold sD, egf. rewrite factq_S. field. split; [apply factq_neq0 | apply nq_S_neq0].
-    - unfold conv. unfold Qcdiv at 3. rewrite <- bigsum_scal_r.
+    - unfold conv. unfold Qcdiv. rewrite <- bigsum_scal_r.
       replace (S n + 1)%nat with (S (S n)) by lia. rewrite pyrange_shift, pyrange_0, bigsum_map.
       apply bigsum_ext. intros j Hj. apply in_seq in Hj. cbn [Nat.sub]. rewrite !Nat.sub_0_r.
       rewrite (bq_fact n j) by lia. unfold sD, egf. rewrite (factq_S j).
@@ -399,4 +399,82 @@ Proof.
   destruct i as [|n]; [lia|].
   pose proof (egf_rec_unique (S n) _ _ _ (egf_0 m H0) Hi' HL n ltac:(lia)) as E.
   rewrite <- E. unfold egf. field. apply factq_neq0.
+Qed.
+
+Lemma cum_rec_ext N m m' kap kap' :
+  (forall i, (i <= N)%nat -> m i = m' i) -> (forall i, (1 <= i <= N)%nat -> kap i = kap' i) ->
+  cum_rec N m kap -> cum_rec N m' kap'.
+Proof.
+  intros Hm Hk H i Hi. rewrite <- Hm by lia. rewrite (H i Hi). apply bigsum_ext.
+  intros k Hk'. apply in_pyrange in Hk'. rewrite Hk by lia. rewrite Hm by lia. reflexivity.
+Qed.
+
+(* homogeneity: scaling the moments by c^i scales the cumulants by c^i *)
+Theorem cum_rec_scale N c m kap :
+  cum_rec N m kap -> cum_rec N (fun i => qpow c i * m i) (fun i => qpow c i * kap i).
+Proof.
+  intros H i Hi. rewrite (H i Hi). rewrite <- bigsum_scal. apply bigsum_ext.
+  intros k Hk. apply in_pyrange in Hk.
+  replace i with (k + (i - k))%nat at 1 by lia. rewrite qpow_add. ring.
+Qed.
+
+(* cumulants of a constant c: (c, 0, 0, ...) *)
+Theorem cum_rec_const N c :
+  cum_rec N (fun i => qpow c i) (fun i => match i with 1%nat => c | _ => 0 end).
+Proof.
+  intros i Hi. destruct i as [|n]; [lia|].
+  replace (S n + 1)%nat with (S (S n)) by lia. rewrite pyrange_shift, pyrange_0, bigsum_map.
+  rewrite bigsum_seq_first. cbn [Nat.sub]. rewrite Nat.sub_0_r, bq_0_r.
+  rewrite bigsum_single; [cbn [qpow]; ring|]. intros j _. ring.
+Qed.
+
+(* ------------------------------------------------------------------------------------ *)
+(** * operations on finite laws                                                        *)
+(* ------------------------------------------------------------------------------------ *)
+
+(* law of X + Y for independent X ~ L1, Y ~ L2 *)
+Definition indep_sum (L1 L2 : law) : law :=
+  flat_map (fun p => map (fun q => (fst p * fst q, snd p + snd q)) L2) L1.
+Definition shift_law (c : Qc) (L : law) : law := map (fun p => (fst p, snd p + c)) L.
+Definition scale_law (c : Qc) (L : law) : law := map (fun p => (fst p, c * snd p)) L.
+
+Lemma Ex_indep_sum L1 L2 f : Ex (indep_sum L1 L2) f = Ex L1 (fun x => Ex L2 (fun y => f (x + y))).
+Proof.
+  unfold Ex, indep_sum. induction L1 as [|p L1 IH]; [reflexivity|].
+  cbn [flat_map]. rewrite bigsum_app, bigsum_cons, IH. f_equal.
+  rewrite bigsum_map. rewrite <- bigsum_scal. apply bigsum_ext. intros q _. cbn [fst snd]. ring.
+Qed.
+Lemma Ex_shift_law c L f : Ex (shift_law c L) f = Ex L (fun x => f (x + c)).
+Proof. unfold Ex, shift_law. rewrite bigsum_map. reflexivity. Qed.
+Lemma Ex_scale_law c L f : Ex (scale_law c L) f = Ex L (fun x => f (c * x)).
+Proof. unfold Ex, scale_law. rewrite bigsum_map. reflexivity. Qed.
+
+Lemma mass_indep_sum L1 L2 : mass (indep_sum L1 L2) = mass L1 * mass L2.
+Proof.
+  unfold mass. rewrite Ex_indep_sum. rewrite (Ex_ext L1 _ (fun _ => Ex L2 (fun _ => 1) * 1)) by (intros; ring).
+  rewrite Ex_scal. ring.
+Qed.
+
+Theorem raw_indep_sum L1 L2 n : raw (indep_sum L1 L2) n = bconv (raw L1) (raw L2) n.
+Proof.
+  unfold raw at 1. rewrite Ex_indep_sum. unfold bconv.
+  rewrite (Ex_ext L1 _ (fun x => bigsum (seq 0 (S n)) (fun j => (bq n j * raw L2 (n - j)%nat) * qpow x j))).
+  2:{ intros p _.
+      rewrite (Ex_ext L2 _ (fun y => bigsum (seq 0 (S n)) (fun j => (bq n j * qpow (snd p) j) * qpow y (n - j)%nat))).
+      2:{ intros q _. rewrite binomial_theorem. apply bigsum_ext. intros; ring. }
+      rewrite Ex_bigsum. apply bigsum_ext. intros j _. rewrite Ex_scal. unfold raw. ring. }
+  rewrite Ex_bigsum. apply bigsum_ext. intros j _. rewrite Ex_scal. unfold raw. ring.
+Qed.
+
+Lemma raw_shift_law c L n : raw (shift_law c L) n = bconv (raw L) (fun i => qpow c i) n.
+Proof.
+  unfold raw at 1. rewrite Ex_shift_law. unfold bconv.
+  rewrite (Ex_ext L _ (fun x => bigsum (seq 0 (S n)) (fun j => (bq n j * qpow c (n - j)%nat) * qpow x j))).
+  2:{ intros p _. rewrite binomial_theorem. apply bigsum_ext. intros; ring. }
+  rewrite Ex_bigsum. apply bigsum_ext. intros j _. rewrite Ex_scal. unfold raw. ring.
+Qed.
+
+Lemma raw_scale_law c L n : raw (scale_law c L) n = qpow c n * raw L n.
+Proof.
+  unfold raw. rewrite Ex_scale_law. rewrite <- Ex_scal. apply Ex_ext. intros p _. apply qpow_mul_base.
 Qed.
